@@ -41,6 +41,8 @@ mod protocol;
 mod python;
 mod stack;
 mod state;
+#[cfg(feature = "verif")]
+pub mod verif;
 
 pub use cli::Cli;
 pub use generator::Generator;
